@@ -148,6 +148,7 @@ type TLCOpts struct {
 	Deadlock   bool // true: check deadlock (default off: -deadlock flag given)
 	ExtraArg   []string
 	HeapGB     int
+	DFS        bool // depth-first state queue (acceptance-style trace validation)
 }
 
 type TLCResult struct {
@@ -202,6 +203,9 @@ func (c *Ctx) RunTLC(o TLCOpts) (*TLCResult, error) {
 		args = append(args, fmt.Sprintf("-Xmx%dg", o.HeapGB))
 	} else {
 		args = append(args, "-Xmx4g")
+	}
+	if o.DFS {
+		args = append(args, "-Dtlc2.tool.queue.IStateQueue=StateDeque")
 	}
 	args = append(args, "-Xss512m", "-cp", "/opt/veriftools/tla/tla2tools.jar:/opt/veriftools/tla/CommunityModules-deps.jar", "tlc2.TLC",
 		"-workers", strconv.Itoa(o.Workers), "-metadir", filepath.Join(dir, "meta"), "-config", o.Config)
